@@ -54,7 +54,8 @@ def nrel(a, b):
   return float(np.max(np.abs(a - b)) / (1.0 + max(np.max(np.abs(a)), np.max(np.abs(b)))))
 
 
-COLLECT = bool(os.environ.get('C43_COLLECT'))
+COLLECT = bool(os.environ.get('C43_COLLECT'))     # triage mode: record every discrepancy, never raise
+FINDINGS = bool(os.environ.get('C43_FINDINGS'))   # include the sub-domains excluded because of reported findings
 COLLECTED = {}
 
 
@@ -214,6 +215,14 @@ def compare_efc(lib, tm, td, dxi, worst):
   nefc = int(td.nefc)
   Jc = c_dense(lib, tm, td, 'efc_J')
   arc = np.asarray(td.efc_aref)[:nefc].copy()
+  # candidate finding F1: the C engine subtracts a Jdot*v term from aref of connect/weld rows (mj_Jdotv); MJX has no
+  # such term (acknowledged in mjx/_src/constraint_test.py, not in doc/mjx.rst).  Compare MJX with the uncorrected
+  # aref and flag the state, so that downstream solver/step comparisons are skipped when the term is non-zero.
+  jd = np.zeros(max(nefc, 1))
+  if int(td.ne) > 0 and not FINDINGS:
+    lib.mj_Jdotv(tm, td, jd)
+    arc = arc - jd[:nefc]
+  jdotv = bool(np.max(np.abs(jd)) > 1e-10 * (1 + np.max(np.abs(arc)) if nefc else 0))
   Dc = np.asarray(td.efc_D)[:nefc].copy()
   flc = np.asarray(td.efc_frictionloss)[:nefc].copy()
   Jx = np.asarray(dxi._impl.efc_J)
@@ -245,7 +254,7 @@ def compare_efc(lib, tm, td, dxi, worst):
     free.remove(k)
     perm.append((r, act[k]))
   worst.add('efc.rows', worstrow)
-  return perm
+  return perm, jdotv
 
 
 def compare_state(ck, lib, c, s, tf, ts, dxf, dxs, worst, info):
@@ -318,8 +327,10 @@ def compare_state(ck, lib, c, s, tf, ts, dxf, dxs, worst, info):
     return dict(status=status, ncon=ncon)
 
   # ---- constraints
-  perm = compare_efc(lib, tm, tf, dxf, worst)
+  perm, jdotv = compare_efc(lib, tm, tf, dxf, worst)
   nrows = len(perm)
+  if jdotv:
+    return dict(status='deviation:jdotv', ncon=ncon, nrows=nrows)
   scale = max(1.0, cond)
   chk('qacc', tf.qacc, dxf.qacc, TOL_SOLVE * scale, 'qacc')
   chk('qfrc_constraint', tf.qfrc_constraint, dxf.qfrc_constraint, TOL_SOLVE * scale, 'qfrc_constraint')
@@ -376,13 +387,26 @@ class Runner:
     import time as _t
     t0 = _t.time()
     dxb = gx.batch_data(c, states)
-    stepf = jax.jit(jax.vmap(mjx.step, in_axes=(None, 0)))
-    outs = jax.device_get(stepf(c.mx, dxb))
-    if rk4:
-      fwdf = jax.jit(jax.vmap(mjx.forward, in_axes=(None, 0)))
-      outf = jax.device_get(fwdf(c.mx, dxb))
-    else:
-      outf = outs
+    if (not FINDINGS and gm.info['option']['cone'] == 'elliptic' and c.dx0._impl.nefc > 0
+        and not np.any(np.asarray(c.dx0._impl.contact.dim) > 1)):
+      # candidate finding F2: solver._update_constraint indexes with jp.array([]) (float64) -> TypeError
+      ck.discard('finding:elliptic-without-frictional-contact-TypeError')
+      return
+    try:
+      stepf = jax.jit(jax.vmap(mjx.step, in_axes=(None, 0)))
+      outs = jax.device_get(stepf(c.mx, dxb))
+      if rk4:
+        fwdf = jax.jit(jax.vmap(mjx.forward, in_axes=(None, 0)))
+        outf = jax.device_get(fwdf(c.mx, dxb))
+      else:
+        outf = outs
+    except Exception as e:     # only the MJX calls are inside this try block
+      msg = 'mjx.step/forward raised %s: %s on a model accepted by put_model' % (type(e).__name__, str(e)[:300])
+      if COLLECT:
+        rec = COLLECTED.setdefault('mjx-exception:' + type(e).__name__, [0, msg, gm.xml, -1])
+        rec[0] += 1
+        return
+      raise Violation(msg, bucket='mjx-exception')
     if os.environ.get('C43_PRINT'):
       print('  model nv=%d nbody=%d ncon=%d nefc=%d %s: jit+run %.1fs' % (tm.nv, tm.nbody, c.dx0._impl.ncon, c.dx0._impl.nefc,
             gm.info['option']['integrator'], _t.time() - t0), flush=True)
